@@ -38,7 +38,6 @@ EXCLUDED_DIRS = ("core", )
 REPLICA_ANCHORS = [
     ("symplyphysics.docs.patch", "patch_sympy_evaluate", "b7ce6be4fff4f5f5"),
     ("symplyphysics.docs.parse", "find_members_and_functions", "1becaf93e0dab741"),
-    ("symplyphysics.docs.parse", "find_title_and_description", "6407bbfba17c09e5"),
 ]
 
 
@@ -46,14 +45,28 @@ def _is_private(s: str) -> bool:
     return s.startswith(".") or s.startswith("_")
 
 
-def has_title(doc: str) -> bool:
-    """replica of docs.parse.find_title_and_description returning non-None"""
-    lines = doc.splitlines()
-    for line in lines[1:]:
-        if not line:
-            continue
-        return all(c == "=" for c in line) or all(c == "-" for c in line)
-    return False
+_TITLE_READER = {}
+
+
+def has_title(doc: str, run: "Run" = None) -> bool:
+    """does the generator find a title in this module docstring? docs.parse.find_title_and_description is EVALUATED (sa/pyreader.py) on the docstring -
+    the text of the documented module is the generator's input, and both are source text of the tree - instead of being mirrored by a replica"""
+    from ..pyreader import PyReader, Raised
+    key = id(run.src) if run is not None else 0
+    if key not in _TITLE_READER:
+        pm = run.src.need(DOCS + "parse")
+        _TITLE_READER.clear()
+        _TITLE_READER[key] = (pm.tree, {})
+    tree, cache = _TITLE_READER[key]
+    if doc in cache:
+        return cache[doc]
+    R = PyReader(tree, "docs/parse.py", depth_limit=6)
+    try:
+        got = R.call("find_title_and_description", [doc])
+    except Raised:
+        got = None
+    cache[doc] = got is not None
+    return cache[doc]
 
 
 def get_doc(tree: ast.Module):
@@ -277,10 +290,18 @@ def check(run: Run) -> None:
         return
     walked = walked_modules(run)
     documented = []
+    run.rule("D9", "every catalogue module that carries a module docstring is given a title by find_title_and_description (evaluated on the docstring): otherwise the generator "
+             "treats it as undocumented and silently writes no page for it")
     for m in walked:
         doc = ast.get_docstring(m.tree)
-        if doc is not None and has_title(doc):
+        if doc is not None and has_title(doc, run):
             documented.append(m)
+        elif doc is not None and m.rel.split("/")[1] in ("laws", "definitions", "conditions"):
+            run.violate("D9", f"{m.name}:no-title", m, m.tree,
+                        "this module has a module docstring but docs.parse.find_title_and_description finds no title in it (no line of '=' or '-' it accepts as the underline): "
+                        "the generator treats the module as undocumented and writes no page - 'exactly one page per documented module' fails silently")
+        if doc is not None and m.rel.split("/")[1] in ("laws", "definitions", "conditions"):
+            run.ob("D9", m.name, nontrivial=False)
     run.require(len(documented) >= 600, f"only {len(documented)} documented modules found")
     run.notes["walked_modules"] = len(walked)
     run.notes["documented_modules"] = len(documented)
